@@ -46,6 +46,24 @@ def run(ctx):
                       "steps": [{"t": "load", "clients": 1, "calls": 40, "kinds": ["auth"], "users": ["u1"], "pws": ["p1"]},
                                 {"t": "load", "clients": 4, "calls": 6, "kinds": ["auth", "list", "update"], "users": ["u1", "u2"],
                                  "pws": ["p1", "p2"]}, {"t": "free"}]})
+    # many logins of one upgradeable user at once: all but the first queued upgrade are outdated when their turn comes and
+    # must simply be skipped (the dispatcher goes on serving)
+    for i, (cl, calls) in enumerate(((8, 3), (2, 2), (16, 2))):
+        scenarios.append({"name": "login-burst-upgradeable-%d" % i, "mode": "local", "default": 2, "files": up, "passwords": af.PASSWORDS,
+                          "gated": False, "seed": 1 + i,
+                          "steps": [{"t": "load", "clients": cl, "calls": calls, "kinds": ["auth"], "users": ["u1"], "pws": ["p1"]},
+                                    {"t": "sleep", "n": 50},
+                                    {"t": "load", "clients": 2, "calls": 3, "kinds": ["auth", "list", "update"], "users": ["u1", "u2"], "pws": ["p1", "p2"]},
+                                    {"t": "free"}]})
+    # the same under gates: the second login is served while the first login's upgrade request is still queued (Go's select
+    # chooses between the two ready channels, hence several attempts), then a list call must still be answered
+    A = lambda c: {"t": "send", "c": c, "k": "auth", "u": "u1", "p": "p1", "a": False}
+    for i in range(8 if not thorough else 24):
+        scenarios.append({"name": "double-login-queued-upgrade-%d" % i, "mode": "local", "default": 2, "files": up, "passwords": af.PASSWORDS,
+                          "gated": True, "seed": 1, "forced": False, "filler": 0,
+                          "steps": [A("c1"), {"t": "recv"}, {"t": "upsend"}, A("c2"), {"t": "recv"}, {"t": "upsend"}, {"t": "recv"}, {"t": "recv"},
+                                    {"t": "send", "c": "c3", "k": "list", "u": "", "p": "", "a": False}, {"t": "recv"}, {"t": "free"}]})
+    scenarios += af.simulated_scenarios(ctx, 12 if not thorough else 100)
     # transient accept errors (EMFILE) must not stop the saslauthd frontend from answering
     scenarios.append({"name": "sasl-accept-emfile", "mode": "", "default": 2, "files": up, "passwords": af.PASSWORDS,
                       "gated": False, "seed": 1, "frontends": True, "http_admin": ["u2", "p2"],
